@@ -19,10 +19,12 @@
   rewrites every invalid sequence to U+FFFD, on both sides): `Sign` refuses such a method / URI / origin /
   destination and `readHTTPRequest` refuses a transmitted request that has one (`fieldNotUTF8`).  SignJSON and
   VerifyJSON refuse a message with duplicate member names or ill-formed strings (signing.go: checkStrictJSON);
-  in json.Marshal(fields) only the embedded raw content can be such a text: `contentStrict`, checked by `sign`
-  and — inside the key ring's VerifyJSON — by `gatedCheck`.
+  in json.Marshal(fields) only the embedded raw content can be such a text: `contentSignStrict`, checked by `sign`
+  (SignJSON: duplicate names, lone surrogate escapes), and `contentStrict` (VerifyJSON: also invalid UTF-8), checked
+  inside the key ring by `gatedCheck`.
 -/
 import VModel.Json
+import VModel.Sign
 import VModel.Resolve
 namespace V.FedReq
 open V.Json
@@ -78,7 +80,7 @@ def contentValue (c : Option Bytes) : Option (Option JVal) :=
       | some p => some (some p.toJVal)
       | none => none
 
-/-- The gate of SignJSON / VerifyJSON (signing.go: checkStrictJSON) on json.Marshal(fields).  The encoder writes
+/-- The gate of VerifyJSON (signing.go: checkStrictJSON(message, true)) on json.Marshal(fields).  The encoder writes
     the string fields and the signature map itself (distinct names, well-formed strings); the raw content is
     embedded as it is (compacted), so the message passes the gate iff the content does: every string and member
     name valid UTF-8 with properly paired surrogate escapes, no object with two members of the same name. -/
@@ -89,6 +91,17 @@ def contentStrict (c : Option Bytes) : Bool :=
     if raw.isEmpty then true
     else match parse raw with
       | some p => p.wellFormed && p.noDupKeys
+      | none => false
+
+/-- The gate as SignJSON applies it (`checkStrictJSON(message, false)`: no UTF-8 clause — a body that is not valid
+    UTF-8 is signed as before and refused by the receiver's readHTTPRequest). -/
+def contentSignStrict (c : Option Bytes) : Bool :=
+  match c with
+  | none => true
+  | some raw =>
+    if raw.isEmpty then true
+    else match parse raw with
+      | some p => V.Sign.pairedOk p && p.noDupKeys
       | none => false
 
 /-- the four signed string fields are valid UTF-8 -/
@@ -344,8 +357,8 @@ def sign (f : Fields) (serverName keyID : Str) (mkSig : JVal → Str) : Except S
     match contentValue f.content with
     | none => .error .sign
     | some content =>
-      -- SignJSON(json.Marshal(fields)) begins with checkStrictJSON
-      if !contentStrict f.content then .error .sign else
+      -- SignJSON(json.Marshal(fields)) begins with checkStrictJSON(message, false)
+      if !contentSignStrict f.content then .error .sign else
       let canonContent : Except SendErr (Option Bytes) := match f.content with
         | none => .ok none
         | some raw => if raw.isEmpty then .ok none else
